@@ -2,6 +2,9 @@ import Tickit.Proof.WinFocus
 import Tickit.Proof.WinFocusReq
 import Tickit.Proof.WinFocusHist
 import Tickit.Proof.WinFocusRestack
+import Tickit.Proof.WinFocusResize
+import Tickit.Proof.WinFocusMock
+import Tickit.Proof.WinFocusMockHist
 import Tickit.Gen.WinFocusSrc
 /-
   C15 — After a flush the terminal cursor reflects the focused window, or is hidden.
@@ -83,6 +86,27 @@ theorem flush_cursor (fx : Fixes) (t : Tree) (out : FlushOut) (hf : flush fx t =
     (hwf : wfB out.tree = true) (hroot : fx.hiddenRoot = true ∨ rootVisible out.tree = true) (c0 : TermCursor) :
     (c0.applyAll out.calls).matches (cursorSpec out.tree) = true :=
   flush_spec fx hf hl hr hwf hroot c0
+
+/-- The same on the library's own mock terminal (src/mockterm.c — the engine's second configuration, `newmock`), which
+    clamps a goto to its screen and stores `!!value` for CURSORVIS and CURSORBLINK (`TermCall.onMock`): when the root
+    window sits at the origin and fits the `L × C` screen (which `on_term_resize` maintains), what the mock reports
+    after the flush is `cursorSpec`. -/
+theorem flush_cursor_mock (fx : Fixes) (t : Tree) (out : FlushOut) (hf : flush fx t = .ok out)
+    (hl : t.root.needsLater = true) (hr : t.root.needsRestore = true ∨ t.root.needsExpose = true)
+    (hwf : wfB out.tree = true) (hroot : fx.hiddenRoot = true ∨ rootVisible out.tree = true)
+    (L C : Int) (r : Win) (hr0 : out.tree.wins[0]? = some r)
+    (htop : r.rect.top = 0) (hleft : r.rect.left = 0) (hL : r.rect.lines ≤ L) (hC : r.rect.cols ≤ C) (c0 : TermCursor) :
+    (c0.applyAllMock L C out.calls).matches (cursorSpec out.tree) = true :=
+  flush_spec_mock fx hf hl hr hwf hroot hr0 htop hleft hL hC c0
+
+/-- `restore_spec` on the mock terminal. -/
+theorem restore_spec_mock (fx : Fixes) (t : Tree) (hwf : wfB t = true)
+    (hroot : fx.hiddenRoot = true ∨ rootVisible t = true)
+    (calls : List TermCall) (hd : doRestore fx t = .ok calls)
+    (L C : Int) (r : Win) (hr0 : t.wins[0]? = some r)
+    (htop : r.rect.top = 0) (hleft : r.rect.left = 0) (hL : r.rect.lines ≤ L) (hC : r.rect.cols ≤ C) (c0 : TermCursor) :
+    (c0.applyAllMock L C calls).matches (cursorSpec t) = true :=
+  doRestore_spec_mock hwf fx hroot hd hr0 htop hleft hL hC c0
 
 /-- A flush with nothing requested touches neither the terminal nor the tree (so what `restore_requested` must
     guarantee is that nothing *needed* to be requested). -/
@@ -405,6 +429,59 @@ theorem hide_requests_counterexample : ¬ hide_requests_full Fixes.none := by
   revert this
   decide
 
+/-! ### the terminal changes its size
+
+    `termResize` (Model/WinFocus.lean) transcribes `on_term_resize`, the root window's handler of the terminal's resize
+    event: the root window takes the new size and the lines and columns *gained* are exposed.  About an area *lost*
+    the unchanged handler does nothing: a cursor cell of the focused window that now lies outside the root window —
+    "inside the window and every ancestor" fails — stays shown.  fixes/C15_resize_restore.patch ends the handler with
+    `_request_restore(root)`; the extractor reads `Fixes.resizeRestore` off the source. -/
+
+/-- The resize event requests what the property needs (full statement). -/
+def resize_requests_full (fx : Fixes) : Prop :=
+  ∀ (t t' : Tree) (l c : Int), Good15 t → 0 < l → 0 < c → termResize fx t l c = .ok t' → Requests t t'
+
+/-- With the repair a restore is pending after every resize event. -/
+theorem restore_requested_term_resize (fx : Fixes) (hfx : fx.resizeRestore = true) : resize_requests_full fx :=
+  fun _ _ _ _ hg hl hc h => .inl (termResize_pending hfx hg hl hc h)
+
+/-- root 0 (6 × 10) with child 1 at 1,1 (3 × 3), focused, cursor cell 1,1 (absolute 2,2), nothing pending.
+    History: `new 6 10; win 1 0 1 1 3 3 0; curpos 1 1 1; focus 1; flush`. -/
+def shrinkTree : Tree :=
+  { wins := #[{ rect := ⟨0, 0, 6, 10⟩, isRoot := true, children := [1], focusedChild := some 1 },
+              { rect := ⟨1, 1, 3, 3⟩, parent := some 0, isFocused := true, cursor := { line := 1, col := 1 } }] }
+
+def resizeCheck (fx : Fixes) (t : Tree) (l c : Int) : Bool :=
+  match termResize fx t l c with
+  | .ok t' => ((t'.root.needsRestore || t'.root.needsExpose) && t'.root.needsLater) || (cursorSpec t' == cursorSpec t)
+  | .ub _ => true
+
+/-- The full statement implies the executable check on any concrete instance. -/
+def resizeCheck_of_full {fx : Fixes} (h : resize_requests_full fx) (t : Tree) (hg : Good15 t) (l c : Int)
+    (hl : 0 < l) (hc : 0 < c) : resizeCheck fx t l c = true := by
+  unfold resizeCheck
+  split
+  · next t' ht' =>
+    rcases h t t' l c hg hl hc ht' with ⟨h1, h2⟩ | h3
+    · rcases h1 with h1 | h1 <;> simp [h1, h2]
+    · simp [h3]
+  · rfl
+
+/-- The library without the repair — every other repair in place: the terminal shrinks to 2 × 2, the cursor cell 2,2 of
+    the focused window lies outside the root window now (`cursorSpec` goes from `some (2, 2, 1)` to `none`), nothing is
+    exposed and nothing requested.  Replayed on the real code (both terminal configurations):
+    corpus/C15/cursor_kept_after_terminal_shrink.ops. -/
+theorem resize_requests_counterexample : ¬ resize_requests_full { Fixes.all with resizeRestore := false } := by
+  intro h
+  have := resizeCheck_of_full h shrinkTree (good15_of_B (by decide)) 2 2 (by decide) (by decide)
+  revert this
+  decide
+
+/-- The resize event (terminal of at least one cell) preserves the invariants, for every state of the source. -/
+theorem resize_preserves_good (fx : Fixes) (t t' : Tree) (l c : Int) (hg : Good15 t) (hl : 0 < l) (hc : 0 < c)
+    (h : termResize fx t l c = .ok t') : Good15 t' :=
+  termResize_good hg hl hc h
+
 /-! ### the property over histories
 
     `Op`, `HSt`, `stepOp`, `runOps` (Proof/WinFocusRestack.lean): the operations the property quantifies over — window
@@ -458,18 +535,67 @@ theorem history_every_flush (fx : Fixes) (hfx1 : fx.hiddenRoot = true) (hfx2 : f
     s'.term.matches (cursorSpec s'.tree) = true :=
   (flush_step hfx1 (runOps_inv hfx1 hfx2 ops _ s hplain (hinv_newRoot l c hl hc) h) hf).2
 
+/-- C15 over histories in which the terminal also changes its size (`Op.plainR`: as `Op.plain`, plus resize events
+    to any size of at least one cell). -/
+def history_resize_full (fx : Fixes) : Prop :=
+  ∀ (l c : Int) (ops : List Op) (s : HSt), 0 < l → 0 < c → (∀ op ∈ ops, op.plainR) →
+    runOps fx { tree := newRoot l c } (ops ++ [.flush]) = .ok s → s.term.matches (cursorSpec s.tree) = true
+
+/-- **After every flush the cursor equals `cursorSpec`, terminal resizes included**, for a source that carries the three
+    repairs `hiddenRoot`, `chainRestore` and `resizeRestore` (fixes/C15_resize_restore.patch): every history of
+    `history_cursor` with any number of resize events in it, to any sizes of at least one cell. -/
+theorem history_cursor_resize (fx : Fixes) (hfx1 : fx.hiddenRoot = true) (hfx2 : fx.chainRestore = true)
+    (hfx3 : fx.resizeRestore = true) : history_resize_full fx :=
+  fun l c ops s hl hc hplain h => WinFocus.history_cursor_resize hfx1 hfx2 hfx3 l c hl hc ops hplain s h
+
+/-- Without `resizeRestore` it is false, all other repairs in place: `new 6 10; win 1 0 1 1 3 3 0; curpos 1 1 1; focus 1;
+    flush; termsize 2 2; flush` leaves the cursor shown at 2,2 where `cursorSpec` says hidden.  This is the library as
+    found in /repo (known finding `cursor_kept_after_terminal_shrink`, replayed on the real code). -/
+theorem history_resize_counterexample : ¬ history_resize_full { Fixes.all with resizeRestore := false } := by
+  intro h
+  have := h 6 10 [.newWin 0 ⟨1, 1, 3, 3⟩ false false false false, .curpos 1 1 1, .focus 1, .flush, .termResize 2 2]
+    _ (by decide) (by decide) (by intro op hop; simp at hop; rcases hop with rfl | rfl | rfl | rfl | rfl <;> simp [Op.plainR, Op.plain]) rfl
+  revert this
+  decide
+
+/-- … and at every flush in the middle of such a history. -/
+theorem history_every_flush_resize (fx : Fixes) (hfx1 : fx.hiddenRoot = true) (hfx2 : fx.chainRestore = true)
+    (hfx3 : fx.resizeRestore = true)
+    (l c : Int) (hl : 0 < l) (hc : 0 < c) (ops : List Op) (hplain : ∀ op ∈ ops, op.plainR) (s s' : HSt)
+    (h : runOps fx { tree := newRoot l c } ops = .ok s) (hf : stepOp fx s .flush = .ok s') :
+    s'.term.matches (cursorSpec s'.tree) = true :=
+  (flush_step hfx1 (runOps_invR hfx1 hfx2 hfx3 ops _ s hplain (hinv_newRoot l c hl hc) h) hf).2
+
+/-- **The same on the library's own mock terminal** (`MSt`, `stepOpMock`, `runOpsMock`, Proof/WinFocusMockHist.lean: the
+    flush's calls are executed by the mock — goto clamped to the screen, `!!value` for visibility and blink —, a resize
+    is `tickit_mockterm_resize`): from `tickit_mockterm_new(l, c)` and a fresh root window, after any such history that
+    ends in a flush, the cursor the mock terminal *reports* is `cursorSpec` of the tree.  The extra invariant: the root
+    window always covers exactly the screen (no operation but the resize event touches its rectangle), so the clamp
+    never bites.  This is the specification the engine evaluates in its second configuration (`newmock`). -/
+theorem history_cursor_mock (fx : Fixes) (hfx1 : fx.hiddenRoot = true) (hfx2 : fx.chainRestore = true)
+    (hfx3 : fx.resizeRestore = true)
+    (l c : Int) (hl : 0 < l) (hc : 0 < c) (ops : List Op) (hplain : ∀ op ∈ ops, op.plainR) (s : MSt)
+    (h : runOpsMock fx { tree := newRoot l c, lines := l, cols := c } (ops ++ [.flush]) = .ok s) :
+    s.term.matches (cursorSpec s.tree) = true :=
+  WinFocus.history_cursor_mock hfx1 hfx2 hfx3 l c hl hc ops hplain s h
+
 /-- Every operation preserves the invariants (full statement: `Good15`, which contains the store invariant `wfB`). -/
 def wf_preserved_full (fx : Fixes) : Prop :=
   ∀ (s s' : HSt) (op : Op), Good15 s.tree → stepOp fx s op = .ok s' → Good15 s'.tree
 
 /-- `Good15` — `wfB` with `chain_visible`, the window engine's structural invariants, the flag discipline — survives
     window creation, take-focus, the cursor setters, the notification switch, show, hide, close, restacking requests,
-    geometry changes of any window but the root with their exposes, and expose, for every tree and every state of
-    the source.  (The flush: `flush_preserves_good` below.) -/
+    geometry changes of any window but the root with their exposes, expose, and the terminal's resize event (to at
+    least one cell), for every tree and every state of the source.  (The flush: `flush_preserves_good` below.) -/
 theorem wf_preserved (fx : Fixes) (s s' : HSt) (op : Op) (hop : op ≠ .flush) (hmv : ∀ w r, op = .move w r → w ≠ 0)
+    (hrs : ∀ l c, op = .termResize l c → 0 < l ∧ 0 < c)
     (hg : Good15 s.tree) (hs : stepOp fx s op = .ok s') : Good15 s'.tree := by
   cases op with
   | flush => exact absurd rfl hop
+  | termResize l c =>
+    simp only [stepOp, bind_ok, pure_ok] at hs
+    obtain ⟨x, hx, hs⟩ := hs; subst hs
+    exact termResize_good hg (hrs l c rfl).1 (hrs l c rfl).2 hx
   | newWin p r a b c d =>
     simp only [stepOp, bind_ok, pure_ok] at hs
     obtain ⟨x, hx, hs⟩ := hs; subst hs
@@ -516,6 +642,22 @@ theorem wf_preserved (fx : Fixes) (s s' : HSt) (op : Op) (hop : op ≠ .flush) (
     simp only [stepOp, bind_ok, pure_ok] at hs
     obtain ⟨x, hx, hs⟩ := hs; subst hs; exact expose_good hg hx
 
+/-- Why `wf_preserved_full` keeps its restrictions: a move of the root window by the application takes it off the
+    origin, which `Good15` (C01's `RootWin`: the root window sits at 0,0 — its geometry is the terminal's) forbids.
+    So the unrestricted statement is false of every state of the source; `wf_preserved` is the whole truth for the
+    operations the property's proviso admits. -/
+theorem wf_preserved_full_counterexample (fx : Fixes) : ¬ wf_preserved_full fx := by
+  intro h
+  have hg := h { tree := newRoot 6 10 } { tree := WinTree.set (newRoot 6 10) 0 { rect := ⟨1, 0, 6, 10⟩, isRoot := true } }
+    (.move 0 ⟨1, 0, 6, 10⟩) (hinv_newRoot 6 10 (by decide) (by decide)).good rfl
+  obtain ⟨w, hw, _, _, _, htop, _⟩ := hg.rootWin.ex
+  have : w = { rect := ⟨1, 0, 6, 10⟩, isRoot := true } := by
+    have h0 : (WinTree.set (newRoot 6 10) 0 { rect := ⟨1, 0, 6, 10⟩, isRoot := true }).wins[0]? =
+        some { rect := ⟨1, 0, 6, 10⟩, isRoot := true } := rfl
+    rw [h0] at hw; exact (Option.some.inj hw).symm
+  subst this
+  revert htop; decide
+
 /-- A flush whose queue holds restacking requests only (all the public API can put there) preserves the invariant. -/
 theorem flush_preserves_wf (fx : Fixes) (t : Tree) (out : FlushOut) (hwf : wfB t = true)
     (hq : ∀ r ∈ t.root.changes, r.change.isRestack = true) (hf : flush fx t = .ok out) : wfB out.tree = true :=
@@ -557,6 +699,17 @@ theorem src_init_cursor :
       { line := Tickit.Gen.WinFocusSrc.initCursorLine, col := Tickit.Gen.WinFocusSrc.initCursorCol,
         shape := Tickit.Gen.WinFocusSrc.initCursorShape, visible := Tickit.Gen.WinFocusSrc.initCursorVisible,
         blink := Tickit.Gen.WinFocusSrc.initCursorBlink } := by decide
+
+/-- `on_term_resize` resizes the root window and exposes the lines and the columns gained, as `termResize` transcribes. -/
+theorem src_term_resize : Tickit.Gen.WinFocusSrc.termResizeAsModelled = true := by decide
+
+/-- The mock terminal's cursor controls are as `TermCall.onMock` transcribes them: `!!value` for visibility and blink,
+    the raw value for the shape, every case closed by its `break`. -/
+theorem src_mock_setctl : Tickit.Gen.WinFocusSrc.mockSetctlAsModelled = true := by decide
+
+/-- The mock terminal clamps a goto (and, on a resize, its stored position) to the screen with the two-`if` `BOUND`, and
+    starts at -1,-1 with visibility, blink and shape 0 (`TermCursor.mockInit`, `bound`, `TermCursor.mockResize`). -/
+theorem src_mock_cursor : Tickit.Gen.WinFocusSrc.mockCursorAsModelled = true := by decide
 
 /-- `_do_restore` still walks `focused_child` from the root, stopping at the first invisible window. -/
 theorem src_restore_walk : Tickit.Gen.WinFocusSrc.restoreWalkAsModelled = true := by decide
@@ -646,5 +799,36 @@ example : ∃ s, runOps Fixes.all { tree := newRoot 6 10 }
       (restackOps1 ++ [.restack .raiseFront 1, .flush, .restack .lower 1, .flush]) = .ok s ∧
     cursorSpec s.tree = none ∧ s.term.matches none = true := by
   refine ⟨_, rfl, by decide, by decide⟩
+
+/-- the mock terminal: a window with an explicit blink mode and a bar cursor; the mock reports shape 2 (not the blink
+    value), position 3,4, visible -/
+example : ∃ out, flush Fixes.none demoTree = .ok out ∧
+    TermCursor.mockInit.applyAllMock 8 12 out.calls = { vis := 1, line := 3, col := 4, shape := 2, blink := 1 } := by
+  refine ⟨_, rfl, ?_⟩; decide
+/-- the terminal shrinks through the focused window: the hypotheses of `resize_preserves_good` and of the resize
+    theorems hold of `shrinkTree`, and the event changes what the cursor has to be -/
+example : Good15 shrinkTree := good15_of_B (by decide)
+example : cursorSpec shrinkTree = some (2, 2, 1) := by decide
+example : ∃ t', termResize Fixes.all shrinkTree 2 2 = .ok t' ∧ cursorSpec t' = none ∧ t'.root.needsRestore = true := by
+  refine ⟨_, rfl, ?_, ?_⟩ <;> decide
+/-- a history with a resize through the focused window and back: hidden after the first flush, shown again after the second -/
+example : ∃ s, runOps Fixes.all { tree := newRoot 6 10 }
+    [.newWin 0 ⟨1, 1, 3, 3⟩ false false false false, .curpos 1 1 1, .focus 1, .flush, .termResize 2 2, .flush] = .ok s ∧
+    s.term.vis = 0 := by
+  refine ⟨_, rfl, ?_⟩; decide
+example : ∃ s, runOps Fixes.all { tree := newRoot 6 10 }
+    [.newWin 0 ⟨1, 1, 3, 3⟩ false false false false, .curpos 1 1 1, .focus 1, .flush, .termResize 2 2, .flush,
+     .termResize 6 10, .flush] = .ok s ∧ s.term = { vis := 1, line := 2, col := 2, shape := 1, blink := -1 } := by
+  refine ⟨_, rfl, ?_⟩; decide
+
+/-- a history on the mock terminal: blink mode set explicitly, bar cursor, a resize through the window and back -/
+example : ∃ s, runOpsMock Fixes.all { tree := newRoot 6 10, lines := 6, cols := 10 }
+    [.newWin 0 ⟨1, 1, 3, 3⟩ false false false false, .curshape 1 3, .curblink 1 1, .curpos 1 1 1, .focus 1, .flush] = .ok s ∧
+    s.term = { vis := 1, line := 2, col := 2, shape := 3, blink := 1 } := by
+  refine ⟨_, rfl, ?_⟩; decide
+example : ∃ s, runOpsMock Fixes.all { tree := newRoot 6 10, lines := 6, cols := 10 }
+    [.newWin 0 ⟨1, 1, 3, 3⟩ false false false false, .curshape 1 3, .curblink 1 1, .curpos 1 1 1, .focus 1, .flush,
+     .termResize 2 2, .flush] = .ok s ∧ s.term = { vis := 0, line := 1, col := 1, shape := 3, blink := 1 } := by
+  refine ⟨_, rfl, ?_⟩; decide
 
 end Tickit.Props.C15
